@@ -495,6 +495,7 @@ Definition unmarshal_struct (d : typedef) (cur : value) (e : xml) : result value
   match cur with
   | VStruct vs =>
       if negb (all_supported (struct_fields d)) then Err EUnsupported else
+      if negb (Nat.eqb (List.length (struct_fields d)) (List.length vs)) then Err EShape else
       if negb (String.eqb (xmlname_tag d) "") && negb (String.eqb (xmlname_tag d) (xname e))
       then Err EName else
       do vs1 <- unmarshal_attrs (struct_fields d) vs (xattrs e);
